@@ -314,6 +314,17 @@ Proof.
   destruct k; [exact Hs | |]; (destruct (Nat.leb (clen c) 4000) eqn:E; [apply He; now apply Nat.leb_le | exact Hs]).
 Qed.
 
+Lemma mf_conv_tiles : forall d k c n, md_fine d -> wf_comp c -> contiguous 0 (clen c) (mf_conv d k c n) = true.
+Proof.
+  intros d k c n Hd Wc. unfold mf_conv.
+  assert (Hs : contiguous 0 (clen c) (simple_convert (m_lookup1 d) spell c) = true) by (now apply simple_convert_contiguous).
+  assert (He : forall f, clen c <= 4000 ->
+               contiguous 0 (clen c) (engine_alt sort_by_len spell (fun syms => mdf_lookup d f (syl_prefix syms)) c n) = true).
+  { intros f Hl. apply C01_engine_meets_the_oracle_contract; [apply C01_sort_by_len_permutes | | exact Wc | exact Hl].
+    cbn [syl_prefix]. apply (mdf_ok_lookup d f). now apply md_fine_ok. }
+  destruct k; [exact Hs | |]; (destruct (Nat.leb (clen c) 4000) eqn:E; [apply He; now apply Nat.leb_le | exact Hs]).
+Qed.
+
 Theorem C01_no_history_panics_or_hangs_with_the_modelled_engines : forall ss d s0 ab t0 ops,
   ss_good ss -> ss_cursor ss = None -> md_fine d -> Forall op_fine ops ->
   fine (run md_ops std_ops m_conv (init_editor d s0 ab ss t0) ops).
@@ -351,19 +362,20 @@ Print Assumptions C01_no_history_panics_or_hangs_all_layouts_modelled_engines.
    any moment (the 17 rows of the generated KB table; anything else selects the default), chewing_set_selKey,
    chewing_cand_choose_by_index with ANY int, chewing_cand_open / close, chewing_commit_preedit_buf,
    chewing_clean_preedit_buf / clean_bopomofo_buf, chewing_Reset, chewing_config_set_int with ANY option name and ANY
-   int (the option arms and value tables are the regenerated ones of Model/Config.v; the options they produce are
+   int (the system dictionary is a trie FILE as chewing_new2 loads it: mdf_ops, whose fuzzy lookup matches by syllable
+   prefix in key order; the option arms and value tables are the regenerated ones of Model/Config.v; the options they produce are
    installed on the editor model), chewing_userphrase_add / remove with ANY two strings (the Bopomofo string is split
    and parsed by the syllable model), and any editor operation returns - no Panic, no OutOfFuel - and keeps the context invariant.  The events handed to the
    editor are the ones the eight keyboards build (complete sweeps in KeyEventsOk / KeyboardProofs). *)
 Theorem C01_no_sequence_of_C_calls_panics_or_hangs : forall ss d ab t0 ops,
   ss_good ss -> ss_cursor ss = None -> md_fine d -> Forall cop_fine ops ->
-  fine (crun m_conv (cx_init d ab ss t0) ops).
+  fine (crun mf_conv (cx_init d ab ss t0) ops).
 Proof.
   intros ss d ab t0 ops Hg Hf Hd Hops.
-  apply (crun_fine m_conv m_conv_tiles ss Hg Hf); [exact Hops|].
+  apply (crun_fine mf_conv mf_conv_tiles ss Hg Hf); [exact Hops|].
   constructor; [|vm_compute; reflexivity].
   unfold cx_init, ml_init. cbn [cx_ed].
-  eapply (init_inv md_ops lay_ops); try eassumption.
+  eapply (init_inv mdf_ops lay_ops); try eassumption.
 Qed.
 Print Assumptions C01_no_sequence_of_C_calls_panics_or_hangs.
 
@@ -378,7 +390,7 @@ Definition c_history : list cop :=
    CDefault 50; CUserAdd [20013; 25991]%N [12563; 12584; 12581; 32; 12584; 12579; 714]%N; CHandle kcEnter 0]%Z.
 Example C01_c_history_example :
   Forall cop_fine c_history /\
-  exists c, crun m_conv (cx_init d_hsu_c [] ss_empty 0%N) c_history = Ok c /\
+  exists c, crun mf_conv (cx_init d_hsu_c [] ss_empty 0%N) c_history = Ok c /\
     c_commit_string c = [35470%N] /\ cx_kbcompat c = 1%N /\
     md_user (dict (sh (cx_ed c))) = [([8032; 338], [20013; 25991], 1, 0); ([10240], [35470], 10, 6)]%N.
 Proof.
